@@ -12,3 +12,5 @@ def check(rep, tier):
     containers.run_ground(rep, tier)
     from contracts import discipline
     discipline.run_frame(rep, tier)
+    from contracts import core_backward
+    core_backward.run_proof(rep, tier, which=('backward_pass',))
